@@ -2,6 +2,7 @@ package main
 
 import (
 	"fmt"
+	"go/ast"
 	"go/constant"
 	"go/token"
 	"go/types"
@@ -1463,14 +1464,13 @@ func floatAtom(a *pcAtom, isSubj func(ssa.Value) bool, c floatClass) (bool, bool
 type ownerIndex struct {
 	refs   map[*ssa.Function]map[*ssa.Function]bool // function -> functions that mention it
 	iface  map[string]bool                            // method names of the module's interfaces
-	owners map[*ssa.Function]*ssa.Function
 }
 
 func (w *World) owners() *ownerIndex {
 	if w.ownerIdx != nil {
 		return w.ownerIdx
 	}
-	oi := &ownerIndex{refs: map[*ssa.Function]map[*ssa.Function]bool{}, iface: map[string]bool{}, owners: map[*ssa.Function]*ssa.Function{}}
+	oi := &ownerIndex{refs: map[*ssa.Function]map[*ssa.Function]bool{}, iface: map[string]bool{}}
 	prog := w.SSA()
 	for _, p := range prog.AllPackages() {
 		if p.Pkg == nil || !strings.HasPrefix(p.Pkg.Path(), modPath) {
@@ -1507,44 +1507,129 @@ func (w *World) owners() *ownerIndex {
 	return oi
 }
 
-// OwnerOf returns the function a piece of code is attributed to.
-func (w *World) OwnerOf(f *ssa.Function) *ssa.Function {
+// OwnerChain returns f (closures lifted to the function that builds them)
+// followed by the functions it is successively attributed to: the only
+// function that mentions it, the only function that mentions that one, ...
+// An exported function, a method that implements an interface of the module
+// and a function mentioned by several others end the chain.
+func (w *World) OwnerChain(f *ssa.Function) []*ssa.Function {
 	oi := w.owners()
-	return oi.owner(f, 0)
-}
-
-func (oi *ownerIndex) owner(f *ssa.Function, d int) *ssa.Function {
 	for f.Parent() != nil {
 		f = f.Parent()
 	}
-	if o, ok := oi.owners[f]; ok {
-		return o
-	}
-	oi.owners[f] = f // cycles end here
-	res := f
-	exported := f.Object() != nil && f.Object().Exported()
-	isIfaceMethod := f.Signature.Recv() != nil && oi.iface[f.Name()]
-	if d < 4 && !exported && !isIfaceMethod && f.Name() != "init" && f.Name() != "main" {
+	chain := []*ssa.Function{f}
+	seen := map[*ssa.Function]bool{f: true}
+	for len(chain) < 5 {
+		cur := chain[len(chain)-1]
+		exported := cur.Object() != nil && cur.Object().Exported()
+		isIfaceMethod := cur.Signature.Recv() != nil && oi.iface[cur.Name()]
+		if exported || isIfaceMethod || cur.Name() == "init" || cur.Name() == "main" {
+			break
+		}
 		var only *ssa.Function
 		n := 0
-		for g := range oi.refs[f] {
-			o := oi.owner(g, d+1)
-			if o == f {
-				continue // recursion
+		for g := range oi.refs[cur] {
+			for g.Parent() != nil {
+				g = g.Parent()
 			}
-			if only == nil || only != o {
+			if g == cur {
+				continue
+			}
+			if only != g {
 				n++
-				only = o
+				only = g
 			}
 		}
-		if n == 1 {
-			res = only
+		if n != 1 || seen[only] {
+			break
 		}
+		seen[only] = true
+		chain = append(chain, only)
 	}
-	oi.owners[f] = res
-	return res
+	return chain
 }
 
+// OwnerOf returns the last function of f's owner chain.
+func (w *World) OwnerOf(f *ssa.Function) *ssa.Function {
+	c := w.OwnerChain(f)
+	return c[len(c)-1]
+}
+
+// OwnedBy: root is f or one of the functions f is attributed to.
+func (w *World) OwnedBy(f, root *ssa.Function) bool {
+	for _, g := range w.OwnerChain(f) {
+		if g == root {
+			return true
+		}
+	}
+	return false
+}
+
+func ssaPlainName(g *ssa.Function) string {
+	if recv := g.Signature.Recv(); recv != nil {
+		t := recv.Type()
+		if p, ok := t.(*types.Pointer); ok {
+			t = p.Elem()
+		}
+		if n, ok := t.(*types.Named); ok {
+			return n.Obj().Name() + "." + g.Name()
+		}
+	}
+	return g.Name()
+}
+
+// OwnerNames lists the names (funcDeclName style) along f's owner chain.
+func (w *World) OwnerNames(f *ssa.Function) []string {
+	var out []string
+	for _, g := range w.OwnerChain(f) {
+		out = append(out, ssaPlainName(g))
+	}
+	return out
+}
+
+// OwnerNamesOf: names along the owner chain of f (f's own name first).
+func (w *World) OwnerNamesOf(f *types.Func) []string {
+	sf := w.SSAFunc(f)
+	if sf == nil {
+		if sig, ok := f.Type().(*types.Signature); ok && sig.Recv() != nil {
+			t := sig.Recv().Type()
+			if p, ok := t.(*types.Pointer); ok {
+				t = p.Elem()
+			}
+			if n, ok := t.(*types.Named); ok {
+				return []string{n.Obj().Name() + "." + f.Name()}
+			}
+		}
+		return []string{f.Name()}
+	}
+	return w.OwnerNames(sf)
+}
+
+// ownedDecls: the declaration of root and of the helpers attributed to it
+// (functions of the same package that only root, directly or through such
+// helpers, uses).
+func (w *World) ownedDecls(pkgKey string, root *types.Func) []*ast.FuncDecl {
+	p := w.Pkg(pkgKey)
+	rootSSA := w.SSAFunc(root)
+	var out []*ast.FuncDecl
+	for _, fd := range funcDecls(p) {
+		if isTestFile(w, fd.Pos()) {
+			continue
+		}
+		f, ok := p.TypesInfo.Defs[fd.Name].(*types.Func)
+		if !ok {
+			continue
+		}
+		if f == root {
+			out = append([]*ast.FuncDecl{fd}, out...)
+			continue
+		}
+		if sf := w.SSAFunc(f); sf != nil && rootSSA != nil && w.OwnedBy(sf, rootSSA) {
+			out = append(out, fd)
+		}
+	}
+	return out
+}
 // pcValuesWhen: the values integer subject subj can have when f holds (the
 // union, over the feasible assignments satisfying f, of what the tests on
 // subj allow).  ok=false when f is not decided.
@@ -1576,4 +1661,42 @@ func pcValuesWhen(f *pcF, subj string) (ISet, bool) {
 		out = out.union(cur)
 	}
 	return out, true
+}
+
+// pcImplies: in every feasible assignment that satisfies f, req holds for the
+// named atoms ("" = holds, else a counterexample).
+func pcImplies(f *pcF, classify func(*pcAtom) string, req func(env map[string]bool) bool) string {
+	atoms := f.atoms()
+	if len(atoms) > 16 {
+		return fmt.Sprintf("condition has %d atomic tests, not decided", len(atoms))
+	}
+	for m := 0; m < 1<<len(atoms); m++ {
+		env := map[string]bool{}
+		named := map[string]bool{}
+		for i, a := range atoms {
+			v := m&(1<<i) != 0
+			env[a.key] = v
+			if n := classify(a); n != "" {
+				if strings.HasPrefix(n, "!") {
+					named[n[1:]] = !v
+				} else {
+					named[n] = v
+				}
+			}
+		}
+		if !pcFeasible(atoms, env) || !f.eval(env, map[*pcF]bool{}) {
+			continue
+		}
+		if !req(named) {
+			var parts []string
+			for _, a := range atoms {
+				parts = append(parts, fmt.Sprintf("%s=%v", a.key, env[a.key]))
+			}
+			if len(parts) == 0 {
+				return "reached unconditionally"
+			}
+			return "reached with " + strings.Join(parts, ", ")
+		}
+	}
+	return ""
 }
